@@ -139,6 +139,46 @@ fn main() {
         table.push(json!({"eps": o.cell.eps, "delta": o.cell.delta, "w": o.w, "d": o.d, "shape": o.cell.shape, "assignments": o.assignments, "failure_fraction": (f_all * 1e6).round() / 1e6, "without_full_coincidences": (f_rest * 1e6).round() / 1e6,
             "stream_element_fractions": o.per_stream_element_bad.iter().map(|&b| ((b as f64 / o.assignments as f64) * 1e6).round() / 1e6).collect::<Vec<_>>(), "verdict": verdict}));
     }
+    // constructor corners: the (epsilon, delta) grid "including delta near 0 and near 1" — every cell must yield the
+    // documented table shape with at least one row and one column, and the sketch must be usable
+    let prev = |x: f64| f64::from_bits(x.to_bits() - 1);
+    let next = |x: f64| f64::from_bits(x.to_bits() + 1);
+    let e1 = (-1.0f64).exp();
+    let e2 = (-2.0f64).exp();
+    let corner_deltas = vec![prev(1.0), 1.0 - 1e-12, 1.0 - 1e-10, 1.0 - 1e-9, 1.0 - 1e-7, 0.999999, 0.99, 0.9, 0.5, next(e1), e1, prev(e1), next(e2), e2, prev(e2), 1e-3, 1e-9, 1e-100, 1e-300, f64::MIN_POSITIVE];
+    let corner_epss = vec![prev(1.0), 0.9, next(std::f64::consts::E / 3.0), std::f64::consts::E / 3.0, prev(std::f64::consts::E / 3.0), 0.5, 0.1, 0.01, 1e-3, 1e-5];
+    let mut corners = 0u64;
+    for &eps in &corner_epss {
+        for &delta in &corner_deltas {
+            let want_w = (std::f64::consts::E / eps).ceil() as usize;
+            let want_d = ((1.0 / delta).ln().ceil() as usize).max(1);
+            if want_w.saturating_mul(want_d) > 4_000_000 {
+                continue;
+            }
+            corners += 1;
+            let name = format!("cms.point_query(eps={:e},delta={:e}) corner", eps, delta);
+            let replay = json!({"structure": "CountMinSketch", "constructor": "with_point_query_properties_and_hasher", "epsilon": eps, "delta": delta, "epsilon_bits": eps.to_bits(), "delta_bits": delta.to_bits(), "expected_w": want_w, "expected_d": want_d});
+            let r = mccore::panics::catch(|| {
+                type S = CountMinSketch<Key, u32, checks::TableHasher>;
+                let mut s: S = CountMinSketch::with_point_query_properties_and_hasher(eps, delta, double_hasher(1 << 20, (0..want_d.max(1) as u64 + 2).map(|i| i * 3 + 1).collect()));
+                let (w, d) = (s.w(), s.d());
+                s.add_n(&Key(5), &7);
+                s.add(&Key(9));
+                (w, d, s.query_point(&Key(5)), s.query_point(&Key(9)))
+            });
+            match r {
+                Err(p) => run.violation(Viol { property: "C08".into(), signature: format!("{} panics", name), message: format!("constructing / using the sketch panicked: {}", p), replay }),
+                Ok((w, d, q5, q9)) => {
+                    if w != want_w || d != want_d || w == 0 || d == 0 {
+                        run.violation(Viol { property: "C08".into(), signature: format!("{} table shape", name), message: format!("constructor built a {}x{} table (w x d); the documented formulas give w = ceil(e/eps) = {}, d = ceil(ln(1/delta)) = {} (at least one row)", w, d, want_w, want_d), replay });
+                    } else if q5 < 7 || q9 < 1 {
+                        run.violation(Viol { property: "C02".into(), signature: format!("{} underestimate", name), message: format!("query_point gives {} / {} for true counts 7 / 1", q5, q9), replay });
+                    }
+                }
+            }
+        }
+    }
+    run.ev.set("constructor_corner_cells", json!(corners));
     run.ev.set("states", json!(total));
     run.ev.set("transitions", json!(total));
     run.ev.set("traces_validated_against_impl", json!(total));
